@@ -1,6 +1,7 @@
 //! lsmc — bounded exhaustive exploration of lucid-suggest-core (see /verif/DESIGN.md).
 
 mod bfs;
+mod doms;
 mod engine;
 mod frozen;
 mod props;
